@@ -43,6 +43,53 @@ def densities(clf, scaled_points):
     return np.array(out).T      # (npoints, nclasses)
 
 
+def _hats_1d(coords, x):
+    """values of all inner piecewise-linear hats of the 1-d grid coords (sorted, including both domain end points) at the points x"""
+    c = np.asarray(coords, dtype=float)
+    x = np.asarray(x, dtype=float)[:, None]
+    mid, left, right = c[1:-1][None, :], c[:-2][None, :], c[2:][None, :]
+    up = (x - left) / (mid - left)
+    down = (right - x) / (right - mid)
+    return np.clip(np.minimum(up, down), 0.0, None)
+
+
+def independent_densities(clf, scaled_points):
+    """per-class densities at points of the learning scaling, evaluated by the harness from the surpluses the estimators hold:
+    sum over component grids of coefficient * sum_i surplus_i * hat_i(x) with its own hat functions (uniform grids of the standard
+    combination, the one-dimensional point lists of the refined grids otherwise).  Independent of the library's interpolation code."""
+    combis, _ = clf.get_density_estimation_results()
+    P = np.asarray([[float(v) for v in p] for p in scaled_points], dtype=float)
+    out = []
+    for c in combis:
+        op = c.operation
+        D = P.shape[1]
+        total = np.zeros(len(P))
+        for g in c.scheme:
+            lv = tuple(int(v) for v in g.levelvector)
+            alpha = np.asarray(op.surpluses[lv], dtype=float).reshape(-1)
+            if hasattr(c, 'get_point_coord_for_each_dim'):
+                with impl.quiet():
+                    coords = [sorted(set([0.0, 1.0] + [float(v) for v in cd])) for cd in c.get_point_coord_for_each_dim(list(lv))[0]]
+            else:
+                coords = [[k / 2 ** l for k in range(2 ** l + 1)] for l in lv]
+            H = [_hats_1d(coords[d], P[:, d]) for d in range(D)]
+            shape = [h.shape[1] for h in H]
+            if int(np.prod(shape)) != alpha.size:
+                raise RuntimeError('surpluses of grid %s: %d values for %s hats' % (lv, alpha.size, shape))
+            A = alpha.reshape(shape)
+            val = A
+            # contract dimension by dimension (last dimension runs fastest in the library's ordering = row-major)
+            if D == 1:
+                v = H[0] @ A
+            elif D == 2:
+                v = np.einsum('pi,pj,ij->p', H[0], H[1], A)
+            else:
+                v = np.einsum('pi,pj,pk,ijk->p', H[0], H[1], H[2], A)
+            total += float(g.coefficient) * v
+        out.append(total)
+    return np.array(out).T
+
+
 def ranks(dens):
     out = []
     for row in dens:
@@ -65,6 +112,11 @@ def ranks(dens):
 def learn(cfg, rng):
     from sparseSpACE.DEMachineLearning import DataSet, Classification
     X, y = make_learning_data(rng, cfg['ncls'], cfg['n'])
+    if cfg.get('symmetric'):
+        # learned range exactly [-1, 1]^2: the value 0.0 is then exactly the middle of the learning scaling (a grid line of every component grid)
+        X = np.clip(X - 1.0, -1.0, 1.0)
+        X = np.vstack([X, [[-1.0, -1.0], [1.0, 1.0], [-1.0, 1.0], [1.0, -1.0]]])
+        y = np.concatenate([y, [0, 1, 0, 1]]).astype(np.int64)
     if cfg.get('unlabelled'):
         y = y.copy()
         y[rng.sample(range(len(y)), 4)] = -1
@@ -96,7 +148,16 @@ def make_batch(rng, kind, lo, hi, ncls, n):
     far = lo + span * (1.2 + r.rand(n, D))
     below_one = inside.copy()
     below_one[:, 0] = lo[0] - span[0] * (0.05 + 0.5 * r.rand(n))          # outside in one dimension only
-    if kind == 'inside':
+    if kind == 'gridline':
+        # samples with a coordinate exactly in the middle of the learned range, or on the range ends
+        X = inside.copy()
+        mid = lo + span * 0.5
+        for i in range(n):
+            d = r.randint(0, D)
+            X[i, d] = mid[d] if r.rand() < 0.8 else (lo[d] if r.rand() < 0.5 else hi[d])
+            if r.rand() < 0.25:
+                X[i, :] = mid
+    elif kind == 'inside':
         X = inside
     elif kind == 'outside':
         X = np.vstack([far[: n // 2], below_one[: n - n // 2]])
@@ -109,15 +170,19 @@ def make_batch(rng, kind, lo, hi, ncls, n):
     return X, y
 
 
-def record_call(clf, kind, X, y, lo, hi, classes_before):
+def record_call(clf, kind, X, y, lo, hi, classes_before, share=False, X_asgiven=None):
+    """share=True: the DataSet is built around the caller's arrays themselves (no copy); the expected outcome is always computed from
+    the values the caller handed over"""
     from sparseSpACE.DEMachineLearning import DataSet
-    sc = [scaled_exact(x, lo, hi) for x in X]
+    # X_asgiven: the values the caller put into the array (an earlier call on the same array must not have changed them)
+    X0 = np.array(X if X_asgiven is None else X_asgiven, dtype=float, copy=True)
+    sc = [scaled_exact(x, lo, hi) for x in X0]
     inside = [all(Fraction(5, 1000) <= v <= Fraction(995, 1000) for v in s) for s in sc]
     scf = np.array([[float(v) for v in s] for s in sc])
-    dens = densities(clf, scf) if len(X) else np.zeros((0, 1))
+    dens = independent_densities(clf, np.clip(scf, 0.0, 1.0)) if len(X) else np.zeros((0, 1))
     e = {'k': kind, 'inside': [bool(b) for b in inside], 'labelsin': [int(v) for v in y], 'ranks': ranks(dens), 'raised': False,
-         'returned': [], 'nreturned': 0, 'summary': [0, 0], '_X': X.tolist(), '_dens': dens.tolist()}
-    ds = DataSet((np.array(X), np.array(y)), name='batch')
+         'returned': [], 'nreturned': 0, 'summary': [0, 0], '_X': X0.tolist(), '_dens': dens.tolist(), '_shared_arrays': share}
+    ds = DataSet((X, y) if share else (np.array(X), np.array(y)), name='batch')
     try:
         with impl.quiet(), impl.watchdog(300):
             if kind == 'call':
@@ -153,7 +218,9 @@ def run(tier, seed):
             dict(ncls=3, n=75, split=0.7, even=False, dimwise=False, lump=False, lam=0.01),
             dict(ncls=2, n=60, split=0.8, even=True, dimwise=True, lump=True, lam=0.0),
             dict(ncls=2, n=50, split=1.0, even=True, dimwise=False, lump=True, lam=0.0, unlabelled=True),
-            dict(ncls=2, n=60, split=0.7, even=False, dimwise=False, lump=True, lam=0.0, range=True)]
+            dict(ncls=2, n=60, split=0.7, even=False, dimwise=False, lump=True, lam=0.0, range=True),
+            # fine component grids (>= 200 points: the point-by-point evaluation path) and samples exactly on grid lines
+            dict(ncls=2, n=80, split=0.8, even=True, dimwise=False, lump=True, lam=0.0, lmax=7, symmetric=True, nseq=2)]
     if tier == 'thorough':
         cfgs += [dict(ncls=3, n=90, split=0.6, even=True, dimwise=True, lump=False, lam=0.01),
                  dict(ncls=2, n=80, split=0.5, even=False, dimwise=False, lump=True, lam=0.0, shuffle=True),
@@ -165,7 +232,7 @@ def run(tier, seed):
     nseq = 5 if tier == 'quick' else 15
     partner = None      # a second classifier (learned for the previous case) stays alive and is used in between: objects must not share state
     for c in cfgs:
-        for s in range(nseq):
+        for s in range(c.get('nseq', nseq)):
             try:
                 clf, lo, hi, LX, Ly = learn(c, rng)
             except impl.Timeout:
@@ -178,13 +245,28 @@ def run(tier, seed):
             test0 = clf.get_testing_data()
             cls0 = [int(v) for v in np.asarray(clf.get_calculated_classes_testset()).tolist()]
             lab0 = [int(v) for v in np.asarray(test0.get_data()[1]).tolist()] if not test0.is_empty() else []
-            d0 = densities(clf, np.asarray(test0.get_data()[0], dtype=float)) if cls0 else np.zeros((0, c['ncls']))
+            d0 = independent_densities(clf, np.asarray(test0.get_data()[0], dtype=float)) if cls0 else np.zeros((0, c['ncls']))
             evs = [{'k': 'learn', 'classes': cls0, 'labels': lab0, 'ranks': ranks(d0)}]
             script = []
+            prev_xy, bk_prev = None, None
             for step in range(rng.randint(3, 5)):
                 kind = rng.choice(['call', 'test', 'test', 'call'])
-                bk = rng.choice(['inside', 'mixed', 'mixed', 'outside', 'labelled-only'])
-                X, y = make_batch(rng, bk, lo, hi, c['ncls'], rng.randint(3, 8))
+                bk = rng.choice(['inside', 'mixed', 'mixed', 'outside', 'labelled-only'] + (['gridline'] * 6 if c.get('symmetric') else []))
+                share = False
+                if step > 0 and prev_xy is not None and rng.random() < 0.35:
+                    # the caller hands over the very arrays it used for the previous call (a DataSet is built around them again)
+                    X, y, X_asgiven = prev_xy
+                    share = True
+                    bk = bk_prev + '/same-arrays'
+                else:
+                    X, y = make_batch(rng, bk, lo, hi, c['ncls'], rng.randint(3, 8) if bk != 'gridline' else 24)
+                    X_asgiven = None
+                    share = rng.random() < 0.5
+                    if share:
+                        X, y = np.ascontiguousarray(X, dtype=np.float64), np.ascontiguousarray(y, dtype=np.int64)
+                if share and X_asgiven is None:
+                    X_asgiven = np.array(X, copy=True)
+                prev_xy, bk_prev = ((X, y, X_asgiven), bk.split('/')[0]) if share else (None, None)
                 if partner is not None and rng.random() < 0.5:
                     pclf, plo, phi, pn = partner
                     try:
@@ -195,7 +277,7 @@ def run(tier, seed):
                         raise
                     except Exception:
                         pass      # the partner's own behaviour is judged in its own trace
-                e = record_call(clf, kind, X, y, lo, hi, None)
+                e = record_call(clf, kind, X, y, lo, hi, None, share=share, X_asgiven=X_asgiven if share else None)
                 evs.append(e)
                 script.append([kind, bk])
             ev = {'k': 'evaluate', 'raised': False, 'summary': [0, 0], 'labels': []}
